@@ -30,6 +30,7 @@ CONSTANTS
   SubTargets = {"A", "B", "C", "D"}
   AutoVals = {TRUE, FALSE}
   SubOneshot = {FALSE, TRUE}
+  UdVals = {0}
   Senders = {"A", "B", "C", "D"}
   QuitCodes = {1}
   ForeignOps = {}
